@@ -206,7 +206,14 @@ func (r *Ralph) Run(fn string, pre Env) (*RunResult, error) {
 					return res, nil
 				}
 				v = Unknown()
-				res.Skipped = append(res.Skipped, st)
+				if pv, bound := pre[m[1]]; bound { // the caller supplies what a call the interpreter cannot follow returns
+					v = pv
+				} else {
+					res.Skipped = append(res.Skipped, st)
+				}
+			}
+			if pv, bound := pre[m[1]]; bound && v.K == KUnknown {
+				v = pv
 			}
 			env[m[1]] = v
 			continue
